@@ -50,7 +50,7 @@ LOAD_CONTEXTS = [
     "x = {} and {}\n", "x = {} or b\n", "x = [*{}, 1]\n", "x = {{**{}}}\n", "x = {} is None\n", "x = a in {}\n", "x = {} @ {}\n", "x = ({})\n", "x = (({}))\n", "x = [\n    {},\n    2,\n]\n",
     "async def f():\n    await {}\n", "async def f():\n    async for i in {}:\n        pass\n", "del a[{}]\n", "x = a[{}] = 2\n", "try:\n    pass\nexcept {}:\n    pass\n", "x = 'a' if {} else 'b'\n",
     "x = {}; y = {}\n", "if a:\n    x = {}\nelse:\n    y = {}\n", "def f(x):\n    return [{} for _ in x if {}]\n", "x = f(g({}), h(k={}))\n", "x = {} ** 2\n", "x = 2 ** {}\n", "x = ~{}\n",
-    "global g\ng = {}\n", "x = {} if {} else {}\n", "lambda: ({}, {})\n", "x = a[b][{}]\n", "x = {{'k': [{}]}}\n",
+    "global g\ng = {}\n", "x = f\"\"\"a{{{}}}b\"\"\"\n", "x = f\"\"\"{{{}!r:>10}}\"\"\"\n", "print(f\"\"\"{{{}}} and {{{}}}\"\"\")\n", "x = {} if {} else {}\n", "lambda: ({}, {})\n", "x = a[b][{}]\n", "x = {{'k': [{}]}}\n",
 ]
 
 # binding-target contexts for $NAME / ${expr}
